@@ -290,5 +290,7 @@ func C03Workloads() []harness.Workload {
 		dkgWorkload("vesta", 12, 1500),
 		dkgWorkload("bls12381g1", 8, 600),
 		dkgWorkload("bls12381g2", 4, 300),
+		l17KeygenWorkload("lindell17-dealer", false, 8, 400),
+		l17KeygenWorkload("lindell17-dkg", true, 1, 24),
 	}
 }
